@@ -381,6 +381,338 @@ Proof. intros Hs. exact (srun_ref fuel (KVal t d) s Hs). Qed.
 
 End SkipRefine.
 
+(* ------------------------------------------------------------------ (B) Thrift reader vs decoder *)
+
+Lemma dec_scalar_bool l : dec_scalar T_BOOL l = match l with b :: r => Some (VBool b, r) | [] => None end.
+Proof. reflexivity. Qed.
+Lemma dec_scalar_byte l : dec_scalar T_BYTE l =
+  match ThriftWire.take 1 l with Some (x, r) => Some (VByte (dec_int x), r) | None => None end.
+Proof. reflexivity. Qed.
+Lemma dec_scalar_i16 l : dec_scalar T_I16 l =
+  match ThriftWire.take 2 l with Some (x, r) => Some (VI16 (dec_int x), r) | None => None end.
+Proof. reflexivity. Qed.
+Lemma dec_scalar_i32 l : dec_scalar T_I32 l =
+  match ThriftWire.take 4 l with Some (x, r) => Some (VI32 (dec_int x), r) | None => None end.
+Proof. reflexivity. Qed.
+Lemma dec_scalar_i64 l : dec_scalar T_I64 l =
+  match ThriftWire.take 8 l with Some (x, r) => Some (VI64 (dec_int x), r) | None => None end.
+Proof. reflexivity. Qed.
+Lemma dec_scalar_double l : dec_scalar T_DOUBLE l =
+  match ThriftWire.take 8 l with Some (x, r) => Some (VDouble (dec_uint x), r) | None => None end.
+Proof. reflexivity. Qed.
+Lemma dec_scalar_string l : dec_scalar T_STRING l =
+  match ThriftWire.take 4 l with
+  | Some (x, r) => let n := dec_int x in
+      if n <? 0 then None
+      else match ThriftWire.take (Z.to_nat n) r with Some (s, r') => Some (VString s, r') | None => None end
+  | None => None
+  end.
+Proof. reflexivity. Qed.
+
+Lemma decode_listset d t l : t = T_LIST \/ t = T_SET ->
+  decode (S d) t l =
+  match l with
+  | et :: r =>
+    match dec_count r with
+    | Some (n, r2) =>
+      match dec_elems (decode d) n et r2 with
+      | Some (es, r3) => Some ((if t =? T_SET then VSet et es else VList et es), r3)
+      | None => None
+      end
+    | None => None
+    end
+  | _ => None
+  end.
+Proof. intros [-> | ->]; reflexivity. Qed.
+
+Section ReadRefine.
+Variable bs : list Z.
+Variable clamp : bool.
+Variable lim : Z.
+
+(* where the reader accepts, the decoder returns some value and the same remaining input *)
+Definition dref {A} (o : out) (m : option (A * list Z)) : Prop :=
+  match o with Ok s' => exists v, m = Some (v, suffix bs s') | _ => True end.
+
+Lemma suffix_at s s' n : inv bs s -> cur s' = cur s + n -> 0 <= n ->
+  suffix bs s' = skipn (Z.to_nat n) (suffix bs s).
+Proof.
+  intros [Hs _] Hc Hn. unfold suffix. rewrite Hc, skipn_skipn'. f_equal. lia.
+Qed.
+
+Lemma next_be_wpv (P : out -> Prop) n s k :
+  inv bs s -> P (Er E_EOF s) ->
+  (forall s', same bs s s' -> cur s + Z.of_nat n <= zlen bs ->
+     P (k (be 0 (firstn n (suffix bs s))) (adv (Z.of_nat n) s'))) ->
+  P (next_be bs n s k).
+Proof.
+  intros Hs He Hk. unfold next_be.
+  destruct (Z.gtb_spec (cur s + Z.of_nat n) (zlen bs)); [assumption|].
+  destruct (get_val bs n 0 s (fun v s' => k v (adv (Z.of_nat n) s')) Hs) as (s' & E & E1); [lia | lia |].
+  rewrite E. change (Z.to_nat 0) with 0%nat. rewrite skipn_O. apply Hk; [assumption | lia].
+Qed.
+
+(* fixed-width scalars: the reader's next(n) is the decoder's take n *)
+Lemma scalar_take n (g : st -> st) s :
+  (forall s, cur (g s) = cur s) -> (forall s, inv bs s -> inv bs (g s)) -> inv bs s ->
+  match next_be bs n s (fun _ s => Ok (g s)) with
+  | Ok s' => ThriftWire.take n (suffix bs s) = Some (firstn n (suffix bs s), suffix bs s') /\ inv bs s'
+  | _ => True
+  end.
+Proof.
+  intros Hg Hg2 Hs. apply next_be_wpv; [assumption | exact I |]. intros s1 E1 Hb.
+  pose proof (suffix_len bs s Hs) as Hl. rewrite take_some by lia.
+  assert (Hc : cur (g (adv (Z.of_nat n) s1)) = cur s + Z.of_nat n) by (rewrite Hg; fin).
+  split; [|apply Hg2; fin].
+  rewrite (suffix_at s _ (Z.of_nat n) Hs Hc) by lia. rewrite Nat2Z.id. reflexivity.
+Qed.
+
+Lemma rstring_dref s : inv bs s ->
+  dref (rstring bs s) (dec_scalar T_STRING (suffix bs s)) /\
+  match rstring bs s with Ok s' => inv bs s' | _ => True end.
+Proof.
+  intros Hs. split; [|apply rstring_wp; [assumption | intros; exact I | intros; assumption]].
+  unfold rstring. apply next_be_wpv; [assumption | exact I |]. intros s1 E1 Hb. cbv zeta.
+  pose proof (suffix_len bs s Hs) as Hl.
+  rewrite dec_scalar_string, take_some by lia.
+  rewrite (dec_int4 (firstn 4 (suffix bs s))) by (apply firstn_length_le; lia). cbv zeta.
+  set (sz := to_s 32 (be 0 (firstn 4 (suffix bs s)))). clearbody sz.
+  destruct (Z.ltb_spec sz 0); cbn [orb]; [exact I|].
+  destruct (Z.gtb_spec sz (zlen bs - cur (adv (Z.of_nat 4) s1))) as [Hgt|Hle]; [exact I|].
+  assert (Hc1 : cur s1 = cur s) by (unfold same in E1; tauto).
+  change (cur (adv (Z.of_nat 4) s1)) with (cur s1 + Z.of_nat 4) in Hle.
+  cbn [dref]. rewrite take_some by (rewrite skipn_length; lia).
+  eexists. do 2 f_equal.
+  rewrite (suffix_at s (charge C_STR (adv sz (adv (Z.of_nat 4) s1))) (4 + sz) Hs) by (fin; lia).
+  rewrite skipn_skipn'. f_equal. lia.
+Qed.
+
+Definition rref (k : rtask) (s : st) (o : out) : Prop :=
+  match k with
+  | RVal t d => dref o (decode (Z.to_nat d) t (suffix bs s))
+  | RFields d => forall lf, (length (suffix bs s) < lf)%nat ->
+                 dref o (dec_fields (decode (Z.to_nat (d - 1))) lf (suffix bs s))
+  | RElems n et d => 0 <= n ->
+                 dref o (dec_elems (decode (Z.to_nat (d - 1))) (Z.to_nat n) et (suffix bs s))
+  | RPairs n kt vt d => 0 <= n ->
+                 dref o (dec_pairs (decode (Z.to_nat (d - 1))) (Z.to_nat n) kt vt (suffix bs s))
+  end.
+
+(* one fixed-width scalar: reader branch [next_be n s (fun _ s => Ok (g s))] against [dec_scalar t] *)
+Ltac scal n g s0 Hi0 lem :=
+  let H := fresh "H" in
+  pose proof (scalar_take n g s0 (fun _ => eq_refl) ltac:(intros; fin) Hi0) as H; cbv beta in H;
+  rewrite decode_scalar by reflexivity; rewrite lem;
+  match type of H with match ?o with _ => _ end => destruct o; try exact I end;
+  destruct H as (H & _); rewrite H; eexists; reflexivity.
+
+(* same, also delivering [inv] of the final state (used for map keys) *)
+Ltac keyscal n s1 Hs1 lem :=
+  let H := fresh "H" in
+  pose proof (scalar_take n (fun s => s) s1 (fun _ => eq_refl) (fun _ Hx => Hx) Hs1) as H; cbv beta in H;
+  rewrite decode_scalar by reflexivity; rewrite lem;
+  match type of H with match ?o with _ => _ end => destruct o; try (split; exact I) end;
+  destruct H as (H & ?); split; [rewrite H; eexists; reflexivity | assumption].
+
+Ltac rcall2 IH f k s Hi s' Href Hpost :=
+  pose proof (IH k s Hi) as Href; pose proof (rrun_post bs clamp lim f k s Hi) as Hpost;
+  destruct (rrun bs clamp lim f k s) as [s'|? ?|?|?|]; cbn [seq_out]; try exact I;
+  unfold rpost, radv in Hpost; cbn [rref dref] in Href.
+
+Lemma rrun_ref : forall f k s, inv bs s -> rref k s (rrun bs clamp lim f k s).
+Proof.
+  induction f as [|f IH]; intros k s Hs.
+  { destruct k; cbn [rrun rref]; intros; exact I. }
+  destruct k as [t d|d|n et d|n kt vt d]; cbn [rrun rref]; cbv beta zeta.
+  - (* RVal *)
+    destruct (Z.leb_spec d 0) as [Hd|Hd]; [exact I|].
+    replace (Z.to_nat d) with (S (Z.to_nat (d - 1))) by lia.
+    set (s0 := enter (lim - d + 1) s).
+    assert (Hc0 : cur s0 = cur s) by reflexivity.
+    assert (Hi0 : inv bs s0) by (subst s0; fin).
+    rewrite <- (suffix_cur bs s s0 Hc0). clearbody s0. clear Hc0 Hs s.
+    pose proof (suffix_len bs s0 Hi0) as Hl.
+    destruct (Z.eqb_spec t T_BOOL) as [->|N1]; cbn [orb].
+    { pose proof (scalar_take 1 (fun s => s) s0 (fun _ => eq_refl) (fun _ Hx => Hx) Hi0) as H; cbv beta in H.
+      rewrite decode_scalar by reflexivity. rewrite dec_scalar_bool.
+      destruct (next_be bs 1 s0 (fun _ s => Ok s)); try exact I. destruct H as (H & _).
+      destruct (suffix bs s0) as [|b r]; cbn [ThriftWire.take length Nat.leb firstn skipn] in H; [discriminate|].
+      inversion H. eexists. reflexivity. }
+    destruct (Z.eqb_spec t T_BYTE) as [->|N2]. { scal 1%nat (fun s : st => s) s0 Hi0 dec_scalar_byte. }
+    destruct (Z.eqb_spec t T_I16) as [->|N3]. { scal 2%nat (charge C_BOX) s0 Hi0 dec_scalar_i16. }
+    destruct (Z.eqb_spec t T_I32) as [->|N4]. { scal 4%nat (charge C_BOX) s0 Hi0 dec_scalar_i32. }
+    destruct (Z.eqb_spec t T_I64) as [->|N5]; cbn [orb]. { scal 8%nat (charge C_BOX) s0 Hi0 dec_scalar_i64. }
+    destruct (Z.eqb_spec t T_DOUBLE) as [->|N6]. { scal 8%nat (charge C_BOX) s0 Hi0 dec_scalar_double. }
+    destruct (Z.eqb_spec t T_STRING) as [->|N7].
+    { destruct (rstring_dref s0 Hi0) as (H & _). rewrite decode_scalar by reflexivity. exact H. }
+    destruct ((t =? T_LIST) || (t =? T_SET)) eqn:Els.
+    { assert (Hls : t = T_LIST \/ t = T_SET)
+        by (apply orb_true_iff in Els; destruct Els as [E|E]; apply Z.eqb_eq in E; auto).
+      rewrite (decode_listset _ t _ Hls).
+      apply next_be_wpv; [assumption | exact I |]. intros s1 E1 Hb1.
+      destruct (suffix bs s0) as [|et r] eqn:El; cbn [length] in Hl; [lia|].
+      change (be 0 (firstn 1 (et :: r))) with et.
+      destruct (type_valid et); cbn [negb]; [|exact I].
+      assert (Hc1 : cur s1 = cur s0) by (unfold same in E1; tauto).
+      assert (Hi1 : inv bs (adv (Z.of_nat 1) s1)) by fin.
+      assert (Hr : suffix bs (adv (Z.of_nat 1) s1) = r)
+        by (rewrite (suffix_at s0 (adv (Z.of_nat 1) s1) 1 Hi0) by (fin; lia); rewrite El; reflexivity).
+      apply next_be_wpv; [assumption | exact I |]. intros s2 E2 Hb2. rewrite Hr.
+      change (cur (adv (Z.of_nat 1) s1)) with (cur s1 + Z.of_nat 1) in Hb2.
+      unfold dec_count. rewrite take_some by lia.
+      rewrite (dec_int4 (firstn 4 r)) by (apply firstn_length_le; lia). cbv zeta.
+      set (sz := to_s 32 (be 0 (firstn 4 r))). clearbody sz.
+      destruct (Z.ltb_spec sz 0) as [Hsz|Hsz]; [exact I|].
+      set (s3 := charge (C_SLICE + hint bs clamp C_SLOT sz (adv (Z.of_nat 4) s2)) (adv (Z.of_nat 4) s2)).
+      assert (Hc3 : cur s3 = cur s0 + 5) by (subst s3; fin).
+      assert (Hi3 : inv bs s3) by (subst s3; fin).
+      assert (Hr3 : suffix bs s3 = skipn 4 r)
+        by (rewrite (suffix_at s0 s3 5 Hi0 Hc3) by lia; rewrite El; reflexivity).
+      pose proof (suffix_len bs s3 Hi3) as Hl3. rewrite Hr3 in Hl3.
+      clearbody s3.
+      rcall2 IH f (RElems sz et d) s3 Hi3 s' Href Hpost.
+      specialize (Href Hsz). destruct Href as (es & He). rewrite Hr3 in He.
+      destruct Hpost as ((Hb' & _) & Hadv & _).
+      destruct (Z.gtb_spec sz (zlen (skipn 4 r))) as [Hgt|Hle]; [unfold zlen at 1 in Hgt; lia|].
+      rewrite He. eexists. reflexivity. }
+    destruct (Z.eqb_spec t T_MAP) as [->|N10].
+    { rewrite decode_map.
+      apply next_be_wpv; [assumption | exact I |]. intros s1 E1 Hb1.
+      destruct (suffix bs s0) as [|kt r0] eqn:El; cbn [length] in Hl; [lia|].
+      change (be 0 (firstn 1 (kt :: r0))) with kt.
+      destruct (type_valid kt); cbn [negb]; [|exact I].
+      assert (Hc1 : cur s1 = cur s0) by (unfold same in E1; tauto).
+      assert (Hi1 : inv bs (adv (Z.of_nat 1) s1)) by fin.
+      assert (Hr0 : suffix bs (adv (Z.of_nat 1) s1) = r0)
+        by (rewrite (suffix_at s0 (adv (Z.of_nat 1) s1) 1 Hi0) by (fin; lia); rewrite El; reflexivity).
+      apply next_be_wpv; [assumption | exact I |]. intros s2 E2 Hb2. rewrite Hr0.
+      change (cur (adv (Z.of_nat 1) s1)) with (cur s1 + Z.of_nat 1) in Hb2.
+      destruct r0 as [|vt r]; cbn [length] in Hl; [lia|].
+      change (be 0 (firstn 1 (vt :: r))) with vt.
+      destruct (type_valid vt); cbn [negb]; [|exact I].
+      assert (Hc2 : cur s2 = cur s0 + 1) by (unfold same in E2; fin).
+      assert (Hi2 : inv bs (adv (Z.of_nat 1) s2)) by fin.
+      assert (Hr : suffix bs (adv (Z.of_nat 1) s2) = r)
+        by (rewrite (suffix_at s0 (adv (Z.of_nat 1) s2) 2 Hi0) by (fin; lia); rewrite El; reflexivity).
+      apply next_be_wpv; [assumption | exact I |]. intros s3 E3 Hb3. rewrite Hr.
+      change (cur (adv (Z.of_nat 1) s2)) with (cur s2 + Z.of_nat 1) in Hb3.
+      unfold dec_count. rewrite take_some by lia.
+      rewrite (dec_int4 (firstn 4 r)) by (apply firstn_length_le; lia). cbv zeta.
+      set (sz := to_s 32 (be 0 (firstn 4 r))). clearbody sz.
+      destruct (Z.ltb_spec sz 0) as [Hsz|Hsz]; [exact I|].
+      set (s4 := charge (C_MAPHDR + hint bs clamp C_MAPENT sz (adv (Z.of_nat 4) s3)) (adv (Z.of_nat 4) s3)).
+      assert (Hc4 : cur s4 = cur s0 + 6) by (subst s4; fin).
+      assert (Hi4 : inv bs s4) by (subst s4; fin).
+      assert (Hr4 : suffix bs s4 = skipn 4 r)
+        by (rewrite (suffix_at s0 s4 6 Hi0 Hc4) by lia; rewrite El; reflexivity).
+      pose proof (suffix_len bs s4 Hi4) as Hl4. rewrite Hr4 in Hl4.
+      clearbody s4.
+      rcall2 IH f (RPairs sz kt vt d) s4 Hi4 s' Href Hpost.
+      specialize (Href Hsz). destruct Href as (es & He). rewrite Hr4 in He.
+      destruct Hpost as ((Hb' & _) & Hadv & _).
+      destruct (Z.gtb_spec sz (zlen (skipn 4 r))) as [Hgt|Hle]; [unfold zlen at 1 in Hgt; lia|].
+      rewrite He. eexists. reflexivity. }
+    destruct (Z.eqb_spec t T_STRUCT) as [->|N11]; [|exact I].
+    rewrite decode_struct.
+    assert (Hi1 : inv bs (charge C_MAPHDR s0)) by fin.
+    rcall2 IH f (RFields d) (charge C_MAPHDR s0) Hi1 s' Href Hpost.
+    change (suffix bs (charge C_MAPHDR s0)) with (suffix bs s0) in Href.
+    destruct (Href (S (length (suffix bs s0))) ltac:(lia)) as (fs & Hf). rewrite Hf. eexists. reflexivity.
+  - (* RFields *)
+    intros lf Hlf. pose proof (suffix_len bs s Hs) as Hl.
+    apply next_be_wpv; [assumption | exact I |]. intros s1 E1 Hb1.
+    destruct (suffix bs s) as [|tp r] eqn:El; cbn [length] in Hl, Hlf; [lia|].
+    destruct lf as [|lf]; [lia|]. cbn [dec_fields].
+    change (be 0 (firstn 1 (tp :: r))) with tp.
+    destruct (type_valid tp); cbn [negb]; [|exact I].
+    assert (Hc1 : cur s1 = cur s) by (unfold same in E1; tauto).
+    assert (Hi1 : inv bs (adv (Z.of_nat 1) s1)) by fin.
+    assert (Hr : suffix bs (adv (Z.of_nat 1) s1) = r)
+      by (rewrite (suffix_at s (adv (Z.of_nat 1) s1) 1 Hs) by (fin; lia); rewrite El; reflexivity).
+    destruct (tp =? 0). { cbn [dref]. eexists. rewrite Hr. reflexivity. }
+    apply next_be_wpv; [assumption | exact I |]. intros s2 E2 Hb2.
+    change (cur (adv (Z.of_nat 1) s1)) with (cur s1 + Z.of_nat 1) in Hb2.
+    rewrite take_some by lia.
+    set (s3 := adv (Z.of_nat 2) s2).
+    assert (Hc3 : cur s3 = cur s + 3) by (subst s3; unfold same in E2; fin).
+    assert (Hi3 : inv bs s3) by (subst s3; fin).
+    assert (Hr3 : suffix bs s3 = skipn 2 r)
+      by (rewrite (suffix_at s s3 3 Hs Hc3) by lia; rewrite El; reflexivity).
+    clearbody s3.
+    rcall2 IH f (RVal tp (d - 1)) s3 Hi3 s4 Href Hpost.
+    destruct Href as (x & Hx). rewrite Hr3 in Hx. rewrite Hx.
+    destruct Hpost as (Hi4 & Hadv & _).
+    assert (Hi4' : inv bs (charge (2 * C_MAPENT) s4)) by fin.
+    rcall2 IH f (RFields d) (charge (2 * C_MAPENT) s4) Hi4' s5 Href2 Hpost2.
+    change (suffix bs (charge (2 * C_MAPENT) s4)) with (suffix bs s4) in Href2.
+    pose proof (suffix_len bs s4 Hi4) as Hl4.
+    destruct (Href2 lf ltac:(lia)) as (fs & Hfs). rewrite Hfs. eexists. reflexivity.
+  - (* RElems *)
+    intros Hn. destruct (Z.leb_spec n 0) as [Hn0|Hn0].
+    { replace (Z.to_nat n) with 0%nat by lia. cbn [dec_elems dref]. eexists. reflexivity. }
+    replace (Z.to_nat n) with (S (Z.to_nat (n - 1))) by lia. cbn [dec_elems].
+    rcall2 IH f (RVal et (d - 1)) s Hs s1 Href Hpost.
+    destruct Href as (x & Hx). rewrite Hx. destruct Hpost as (Hi1 & _).
+    rcall2 IH f (RElems (n - 1) et d) s1 Hi1 s2 Href2 Hpost2.
+    destruct (Href2 ltac:(lia)) as (xs & Hxs). rewrite Hxs. eexists. reflexivity.
+  - (* RPairs *)
+    intros Hn. destruct (Z.leb_spec n 0) as [Hn0|Hn0].
+    { replace (Z.to_nat n) with 0%nat by lia. cbn [dec_pairs dref]. eexists. reflexivity. }
+    replace (Z.to_nat n) with (S (Z.to_nat (n - 1))) by lia. cbn [dec_pairs].
+    assert (Hkey : forall s1, inv bs s1 ->
+      let o := (if kt =? T_STRING then rstring bs s1
+                else if kt =? T_BYTE then next_be bs 1 s1 (fun _ s => Ok s)
+                else if kt =? T_I16 then next_be bs 2 s1 (fun _ s => Ok s)
+                else if kt =? T_I32 then next_be bs 4 s1 (fun _ s => Ok s)
+                else if kt =? T_I64 then next_be bs 8 s1 (fun _ s => Ok s)
+                else rrun bs clamp lim f (RVal kt (d - 1)) s1) in
+      dref o (decode (Z.to_nat (d - 1)) kt (suffix bs s1)) /\
+      match o with Ok s' => inv bs s' | _ => True end).
+    { intros s1 Hs1. cbv zeta.
+      destruct (Z.eqb_spec kt T_STRING) as [->|K1].
+      { rewrite decode_scalar by reflexivity. apply rstring_dref. assumption. }
+      destruct (Z.eqb_spec kt T_BYTE) as [->|K2]. { keyscal 1%nat s1 Hs1 dec_scalar_byte. }
+      destruct (Z.eqb_spec kt T_I16) as [->|K3]. { keyscal 2%nat s1 Hs1 dec_scalar_i16. }
+      destruct (Z.eqb_spec kt T_I32) as [->|K4]. { keyscal 4%nat s1 Hs1 dec_scalar_i32. }
+      destruct (Z.eqb_spec kt T_I64) as [->|K5]. { keyscal 8%nat s1 Hs1 dec_scalar_i64. }
+      split; [apply (IH (RVal kt (d - 1)) s1 Hs1)|].
+      pose proof (rrun_post bs clamp lim f (RVal kt (d - 1)) s1 Hs1) as Hp.
+      destruct (rrun bs clamp lim f (RVal kt (d - 1)) s1); unfold rpost in Hp; tauto. }
+    destruct (Hkey s Hs) as (Href1 & Hp1). cbv zeta in Href1, Hp1.
+    match type of Href1 with dref ?o _ => destruct o as [s1|? ?|?|?|] end; cbn [seq_out]; try exact I.
+    destruct Href1 as (k & Hk). rewrite Hk.
+    rcall2 IH f (RVal vt (d - 1)) s1 Hp1 s2 Href2 Hpost2.
+    destruct Href2 as (x & Hx). rewrite Hx. destruct Hpost2 as (Hi2 & _).
+    rcall2 IH f (RPairs (n - 1) kt vt d) s2 Hi2 s3 Href3 Hpost3.
+    destruct (Href3 ltac:(lia)) as (es & Hes). rewrite Hes. eexists. reflexivity.
+Qed.
+
+(* general form for values *)
+Theorem rrun_ref_val fuel t d s s' :
+  inv bs s -> rrun bs clamp lim fuel (RVal t d) s = Ok s' ->
+  exists v, decode (Z.to_nat d) t (suffix bs s) = Some (v, suffix bs s').
+Proof.
+  intros Hs E. pose proof (rrun_ref fuel (RVal t d) s Hs) as H. rewrite E in H. exact H.
+Qed.
+
+End ReadRefine.
+
+Theorem reader_refines_decode bs t s :
+  read_any_coded t bs = Ok s -> exists v, decode (S (length bs)) t bs = Some (v, skipn (Z.to_nat (cur s)) bs).
+Proof.
+  intros E. unfold read_any_coded in E.
+  apply (rrun_ref_val bs false (zlen bs + 1) _ _ _ _ _ (inv_st0 bs)) in E.
+  replace (Z.to_nat (zlen bs + 1)) with (S (length bs)) in E by (unfold zlen; lia). exact E.
+Qed.
+
+Theorem reader_clamped_refines_decode bs t s :
+  read_any_clamped t bs = Ok s -> exists v, decode max_skip_depth t bs = Some (v, skipn (Z.to_nat (cur s)) bs).
+Proof.
+  intros E. unfold read_any_clamped in E.
+  apply (rrun_ref_val bs true skip_limit _ _ _ _ _ (inv_st0 bs)) in E.
+  rewrite depth_eq in E. exact E.
+Qed.
+
 (* ------------------------------------------------------------------ (C) protobuf wire *)
 From DG Require Import ProtoMsg.
 
